@@ -82,10 +82,7 @@ def _cfg(name):
 
 
 def _mc(rep, module, tmpl, bounds, quick, **kw):
-    if os.environ.get("USB2EP_DEV_SKIP_MC"):
-        return
-    res = tlc.model_check(SPEC_DIR, module, tlc.render_cfg(_cfg(tmpl), bounds), timeout=6000,
-                          workers=8 if quick else 16, **kw)
+    res = tlc.model_check(SPEC_DIR, module, tlc.render_cfg(_cfg(tmpl), bounds), timeout=6000, **kw)
     rep.add_mc("%s %s" % (module, bounds), res, bounds)
 
 
@@ -831,6 +828,7 @@ def check_C13(rep):
                "state); witness stimuli hit exactly one of them")
 
     mcs = [dict(MaxPkt=2, Depth=3, MaxPackets=3, MaxBad=1, MaxLost=1, MaxPing=1),
+           dict(MaxPkt=2, Depth=4, MaxPackets=3, MaxBad=1, MaxLost=1, MaxPing=1),
            dict(MaxPkt=3, Depth=4, MaxPackets=2, MaxBad=1, MaxLost=1, MaxPing=1)] if quick else \
           [dict(MaxPkt=2, Depth=3, MaxPackets=4, MaxBad=1, MaxLost=1, MaxPing=1),
            dict(MaxPkt=2, Depth=5, MaxPackets=4, MaxBad=1, MaxLost=1, MaxPing=1),
@@ -1052,7 +1050,7 @@ def check_C14(rep):
                "IN transaction ACKed between SETUP and status stage")
     mcs = [dict(NIn=1, NOut=1, MaxPkt=2, Depth=3, MaxStream=2, MaxPackets=1, MaxBad=0, MaxLost=1, MaxClear=1, MaxVoid=1)] \
         if quick else \
-          [dict(NIn=1, NOut=1, MaxPkt=2, Depth=3, MaxStream=3, MaxPackets=2, MaxBad=1, MaxLost=1, MaxClear=2, MaxVoid=0),
+          [dict(NIn=1, NOut=1, MaxPkt=2, Depth=3, MaxStream=3, MaxPackets=2, MaxBad=1, MaxLost=1, MaxClear=1, MaxVoid=0),
            dict(NIn=1, NOut=1, MaxPkt=2, Depth=3, MaxStream=2, MaxPackets=1, MaxBad=0, MaxLost=1, MaxClear=1, MaxVoid=1)]
     for b in mcs:
         _mc(rep, "MCEpDev", "MCEpDev.cfg.tmpl", b, quick)
@@ -1230,7 +1228,7 @@ def check_C12(rep):
         _mc(rep, "MCEpDev", "MCEpDev.cfg.tmpl", bnd, quick, allow_uncovered=allow)
     jobs = []
     for focus in C12_FOCI:
-        for i in range(6 if quick else 80):
+        for i in range(8 if quick else 80):
             jobs.append((gen_c12(rep.rng, focus, 5 if quick else 8), focus, {"gen": "random-pair"},
                          rep.rng.randrange(1 << 30)))
     items = run_pairs(rep, C12_EPS, jobs)
